@@ -39,7 +39,10 @@ def drive_case(case, extra):
     rec["ast"] = sorted({type(n).__name__ for n in ast.walk(tree)}
                         | {type(n.op).__name__ for n in ast.walk(tree) if hasattr(n, "op")}
                         | {"ChainedCompare" for n in ast.walk(tree)
-                           if isinstance(n, ast.Compare) and len(n.ops) > 1})
+                           if isinstance(n, ast.Compare) and len(n.ops) > 1}
+                        | {"USubOfTuple" for n in ast.walk(tree)
+                           if isinstance(n, ast.UnaryOp) and isinstance(n.op, ast.USub)
+                           and isinstance(n.operand, (ast.Tuple, ast.List))})
     rec["ai"] = ser.obj_to_json(lambda: ASTToPymbolic()(tree.body))
     global _IMPORTER
     if _IMPORTER is None:
